@@ -78,6 +78,18 @@ Proof.
 Qed.
 Print Assumptions C12_systematic_unbiased_on_grid.
 
+(** ... and so is the estimate: over the same grid of offsets, the sum of any test function f over the
+    resampled particles sums to c * N * sum_i f(i) w_i, i.e. the mean over the grid of the equal-weight
+    average (1/N) sum_j f(a_j) is the weighted average sum_i f(i) w_i / sum(w) before resampling. *)
+Theorem C12_systematic_estimate_on_grid :
+  forall (ws : list Z) (N c : nat) (f : nat -> Z),
+    Forall (fun w => 0 <= w) ws -> 0 < sumz ws -> (0 < N)%nat -> (0 < c)%nat ->
+    let B := (c * Z.to_nat (sumz ws))%nat in
+    zsum (fun k => fsum f (sys_indices ws N (2 * Z.of_nat k + 1) (2 * Z.of_nat B))) B
+    = Z.of_nat c * Z.of_nat N * zsum (fun i => f i * nth i ws 0) (length ws).
+Proof. intros ws N c f Hws HT HN Hc. apply systematic_estimate_on_grid; assumption. Qed.
+Print Assumptions C12_systematic_estimate_on_grid.
+
 Example C12_unbiased_nonvacuous :
   zsum (copies_at [1; 2; 0; 5] 3 2 1%nat) 16 = 2 * 3 * 2.
 Proof. vm_compute. reflexivity. Qed.
